@@ -156,6 +156,19 @@ func convertToFloat(other Object) (Float, bool) {
 	return 0, false
 }
 
+// Convert the other operand of an arithmetic operation to a Float
+//
+// ok is false if other isn't a number; err is set if it is an int
+// which is too large for a float
+func floatOperand(other Object) (b Float, ok bool, err error) {
+	if big, isBig := other.(*BigInt); isBig {
+		b, err = big.Float()
+		return b, err == nil, err
+	}
+	b, ok = convertToFloat(other)
+	return b, ok, nil
+}
+
 func (a Float) M__neg__() (Object, error) {
 	return -a, nil
 }
@@ -169,7 +182,11 @@ func (a Float) M__abs__() (Object, error) {
 }
 
 func (a Float) M__add__(other Object) (Object, error) {
-	if b, ok := convertToFloat(other); ok {
+	b, ok, err := floatOperand(other)
+	if err != nil {
+		return nil, err
+	}
+	if ok {
 		return Float(a + b), nil
 	}
 	return NotImplemented, nil
@@ -184,14 +201,22 @@ func (a Float) M__iadd__(other Object) (Object, error) {
 }
 
 func (a Float) M__sub__(other Object) (Object, error) {
-	if b, ok := convertToFloat(other); ok {
+	b, ok, err := floatOperand(other)
+	if err != nil {
+		return nil, err
+	}
+	if ok {
 		return Float(a - b), nil
 	}
 	return NotImplemented, nil
 }
 
 func (a Float) M__rsub__(other Object) (Object, error) {
-	if b, ok := convertToFloat(other); ok {
+	b, ok, err := floatOperand(other)
+	if err != nil {
+		return nil, err
+	}
+	if ok {
 		return Float(b - a), nil
 	}
 	return NotImplemented, nil
@@ -202,7 +227,11 @@ func (a Float) M__isub__(other Object) (Object, error) {
 }
 
 func (a Float) M__mul__(other Object) (Object, error) {
-	if b, ok := convertToFloat(other); ok {
+	b, ok, err := floatOperand(other)
+	if err != nil {
+		return nil, err
+	}
+	if ok {
 		return Float(a * b), nil
 	}
 	return NotImplemented, nil
@@ -217,7 +246,11 @@ func (a Float) M__imul__(other Object) (Object, error) {
 }
 
 func (a Float) M__truediv__(other Object) (Object, error) {
-	if b, ok := convertToFloat(other); ok {
+	b, ok, err := floatOperand(other)
+	if err != nil {
+		return nil, err
+	}
+	if ok {
 		if b == 0 {
 			return nil, floatDivisionByZero
 		}
@@ -227,7 +260,11 @@ func (a Float) M__truediv__(other Object) (Object, error) {
 }
 
 func (a Float) M__rtruediv__(other Object) (Object, error) {
-	if b, ok := convertToFloat(other); ok {
+	b, ok, err := floatOperand(other)
+	if err != nil {
+		return nil, err
+	}
+	if ok {
 		if a == 0 {
 			return nil, floatDivisionByZero
 		}
@@ -241,14 +278,22 @@ func (a Float) M__itruediv__(other Object) (Object, error) {
 }
 
 func (a Float) M__floordiv__(other Object) (Object, error) {
-	if b, ok := convertToFloat(other); ok {
+	b, ok, err := floatOperand(other)
+	if err != nil {
+		return nil, err
+	}
+	if ok {
 		return Float(math.Floor(float64(a / b))), nil
 	}
 	return NotImplemented, nil
 }
 
 func (a Float) M__rfloordiv__(other Object) (Object, error) {
-	if b, ok := convertToFloat(other); ok {
+	b, ok, err := floatOperand(other)
+	if err != nil {
+		return nil, err
+	}
+	if ok {
 		return Float(math.Floor(float64(b / a))), nil
 	}
 	return NotImplemented, nil
@@ -269,7 +314,11 @@ func floatDivMod(a, b Float) (Float, Float, error) {
 }
 
 func (a Float) M__mod__(other Object) (Object, error) {
-	if b, ok := convertToFloat(other); ok {
+	b, ok, err := floatOperand(other)
+	if err != nil {
+		return nil, err
+	}
+	if ok {
 		_, r, err := floatDivMod(a, b)
 		return r, err
 	}
@@ -277,7 +326,11 @@ func (a Float) M__mod__(other Object) (Object, error) {
 }
 
 func (a Float) M__rmod__(other Object) (Object, error) {
-	if b, ok := convertToFloat(other); ok {
+	b, ok, err := floatOperand(other)
+	if err != nil {
+		return nil, err
+	}
+	if ok {
 		_, r, err := floatDivMod(b, a)
 		return r, err
 	}
@@ -289,14 +342,22 @@ func (a Float) M__imod__(other Object) (Object, error) {
 }
 
 func (a Float) M__divmod__(other Object) (Object, Object, error) {
-	if b, ok := convertToFloat(other); ok {
+	b, ok, err := floatOperand(other)
+	if err != nil {
+		return nil, nil, err
+	}
+	if ok {
 		return floatDivMod(a, b)
 	}
 	return NotImplemented, None, nil
 }
 
 func (a Float) M__rdivmod__(other Object) (Object, Object, error) {
-	if b, ok := convertToFloat(other); ok {
+	b, ok, err := floatOperand(other)
+	if err != nil {
+		return nil, nil, err
+	}
+	if ok {
 		return floatDivMod(b, a)
 	}
 	return NotImplemented, None, nil
@@ -306,14 +367,22 @@ func (a Float) M__pow__(other, modulus Object) (Object, error) {
 	if modulus != None {
 		return NotImplemented, nil
 	}
-	if b, ok := convertToFloat(other); ok {
+	b, ok, err := floatOperand(other)
+	if err != nil {
+		return nil, err
+	}
+	if ok {
 		return Float(math.Pow(float64(a), float64(b))), nil
 	}
 	return NotImplemented, nil
 }
 
 func (a Float) M__rpow__(other Object) (Object, error) {
-	if b, ok := convertToFloat(other); ok {
+	b, ok, err := floatOperand(other)
+	if err != nil {
+		return nil, err
+	}
+	if ok {
 		return Float(math.Pow(float64(b), float64(a))), nil
 	}
 	return NotImplemented, nil
